@@ -91,7 +91,8 @@ pub fn create_string_to_sign(
         Mode::HeaderAuth => {
             //  "if you include the x-amz-date header, use the empty string
             //      for the Date when constructing the StringToSign."
-            if headers.get_unique("x-amz-date").is_none() {
+            //  (any number of x-amz-date lines is "including" it; they are signed among the x-amz-* headers)
+            if headers.get_all("x-amz-date").next().is_none() {
                 push_field_value(&mut ans, headers.get_all("date"));
             }
             ans.push('\n');
